@@ -6,3 +6,4 @@ import Desert.Props.C08
 #print axioms C08.prefix_is_error_faithful
 #print axioms C08.cross_prefix_rejected
 #print axioms C08.cross_prefix_is_error
+#print axioms C08.unknown_form_prefix_rejected
